@@ -63,6 +63,11 @@ def gen_world(r, policy_bytes):
     pending = []      # connects whose first hook has run, waiting for the second
     events = []       # ("c4", conn) / ("tc", conn)
     ports = r.sample(range(32768, 61000), nconn)
+    for n in range(6, nconn):
+        # source-port reuse: an earlier connection's record was never consumed (the agent was not accepting, the client went away) and a new
+        # connection leaves from the same port: the record must describe the NEW connection
+        if r.random() < 0.12:
+            ports[n] = ports[r.randrange(n)]
     conns = []
     busy = set()      # a thread is inside connect() from its first hook to its second: it cannot start another connect
     for n in range(nconn):
@@ -135,7 +140,28 @@ def parse_audit_value(hexv):
     return {"uid": logon, "pid": pid, "is_root": is_root, "ip": ip, "port": port, "pad": b[18:20].hex()}
 
 
-def run(tier, rep):
+def ebpf_slice(tier, rep, keep, nworlds, kernel, label):
+    """other properties whose guarantee starts in the eBPF program (who is elevated: C03; which record a source port carries: C07) run a
+    slice of this engine and keep the verdicts that concern them (signature filter `keep`), prefixed with 'ebpf:'"""
+    from .. import evidence
+    sub = evidence.Report("C06", tier)
+    try:
+        run(tier, sub, nworlds=nworlds, kernel=kernel)
+    except common.Inconclusive as e:
+        rep.inconclusive.append("eBPF slice: %s" % e)
+        return
+    rep.coverage["evaluations"] += sub.coverage.get("evaluations", 0)
+    rep.coverage["ebpf_slice"] = {"what": label, "model_worlds": nworlds, "real_kernel_section": bool(kernel) and not sub.coverage.get("kernel_section_skipped"),
+                                  "records_expected": sub.coverage.get("records_expected", 0), "reused_source_ports": sub.coverage.get("reused_source_ports", 0),
+                                  "kernel_connects": sub.coverage.get("kernel_connects_redirected", 0) + sub.coverage.get("kernel_connects_untouched", 0)}
+    for sig, wit in sub.violations:
+        if any(k in sig for k in keep):
+            rep.violation("ebpf:" + sig, wit)
+    for x in sub.inconclusive:
+        rep.inconclusive.append("eBPF slice: %s" % x)
+
+
+def run(tier, rep, nworlds=None, kernel=True):
     build_sim()
     rep.coverage["rule"] = ("user-space ASan+UBSan build of the unmodified linux-ebpf/ebpf_cgroup.c against a model of the documented helper/map semantics; each world = tasks (tid, tgid, uid, gid; uid!=gid, uid 0/gid!=0, gid 0/uid!=0, "
                             "multi-threaded, the agent's own pid in skip_process_map), policy_map loaded with the BYTES THE RUST SIDE PRODUCES (hook H1) for a random endpoint on/off combination, 10-200 connect attempts "
@@ -144,7 +170,7 @@ def run(tier, rep):
                             "kernel section: the same C file compiled with clang -target bpf, loaded through the production BpfObject (aya), connect4 accepted by the kernel verifier and attached to a private cgroup; real processes "
                             "(uid/gid classes) connect() to listed/unlisted/UDP destinations, the rewritten peer address, the kernel's pending record and the policy map after run-time updates are compared with the reference. "
                             "non-trivial = world with a listed connect by a uid!=gid task and >=2 threads between the hooks; distinct by (credential classes, destination classes, interleaving shape)")
-    nworlds = 1200 if tier == "quick" else 20000
+    nworlds = nworlds or (1200 if tier == "quick" else 20000)
     root = tempfile.mkdtemp(prefix="gpa-verif.", dir="/var/tmp")
     try:
         vdir = os.path.join(root, "standin")
@@ -196,9 +222,24 @@ def run(tier, rep):
                         _, _, k, v = l.split()
                         proto, sport = struct.unpack("<II", bytes.fromhex(k))
                         audit[(proto, sport)] = v
+                # reused source ports: only the last connection (in second-hook order) that must leave a record is judged for that port
+                tc_order = {c["n"]: i for i, (k, c) in enumerate(world["events"]) if k == "tc"}
+                by_port = {}
+                for c in world["conns"]:
+                    by_port.setdefault(c["sport"], []).append(c)
+                judged_for_port = {}
+                for sp, cs in by_port.items():
+                    if len(cs) > 1:
+                        rec = [c for c in cs if exp.get(c["n"]) and exp[c["n"]]["record"] is not None and c["n"] in tc_order]
+                        judged_for_port[sp] = max(rec, key=lambda c: tc_order[c["n"]])["n"] if rec else None
+                        if any(exp.get(c["n"], {}).get("tainted_by_stale") for c in cs):
+                            judged_for_port[sp] = None     # the recorded finding (stale pending entry) writes under this port too: not judged here
+                        rep.count("reused_source_ports")
                 for c in world["conns"]:
                     e = exp.get(c["n"])
                     if e is None:
+                        continue
+                    if c["sport"] in judged_for_port and judged_for_port[c["sport"]] != c["n"]:
                         continue
                     got = audit.get((TCP, c["sport"]))
                     cw = dict(wit_base, conn={k: c[k] for k in ("n", "dest", "proto", "family", "sport", "outcome")}, task=c["task"])
@@ -265,7 +306,7 @@ def run(tier, rep):
         shutil.rmtree(root, ignore_errors=True)
     # ---- real-kernel section: the same unmodified C file compiled for the BPF target, loaded by the agent's own BpfObject,
     #      connect4 verified by the kernel and attached to a private cgroup, real connect() calls by real processes
-    err = realbpf.build()
+    err = realbpf.build() if kernel else "not requested for this slice"
     if err:
         rep.coverage["kernel_section_skipped"] = 1
         rep.coverage["kernel_section_skip_reason"] = err[:300]
